@@ -36,7 +36,7 @@ add("C05", "exploration",
     "property-based testing (rapid): round-trip + grammar-based metamorphic re-spelling",
     "DESIGN.md C05")
 add("C18", "exploration",
-    "Generated-input search over triples A, B=mutate(A), C=mutate(B) where each mutation changes exactly one respect (one ulp, swap, rotation, reversal, emptiness, coordinate type, wrapping, zero sign, reorder, drop/duplicate, jitter). Oracles: WKB equality via the independent writer (no options), a brute-force order-insensitive matcher with exact rational ring-simplicity (IgnoreOrder), exact distances for the ToleranceXY premises; reflexivity/symmetry/transitivity on the triple; stored option values applied repeatedly.",
+    "Generated-input search over triples A, B=mutate(A), C=mutate(B) where each mutation changes exactly one respect (one ulp, swap, rotation, reversal, emptiness, coordinate type, wrapping, zero sign, reorder, drop/duplicate, jitter). Oracles: WKB equality via the independent writer (no options), a brute-force order-insensitive matcher with exact rational ring-simplicity (IgnoreOrder), exact distances for the ToleranceXY premises; reflexivity/symmetry/transitivity on the triple; stored option values applied repeatedly. Enumerated: collections of 127..257 distinct members reordered / with one member replaced by a copy of another.",
     "Trusted: independent WKB writer, exact rational kernel (internal/exact/rat.go), rapid. Open known finding F18 (rings at magnitudes < 1e-150 or > 1e150) is excluded by class and counted.",
     "property-based testing (rapid): single-difference mutant pairs vs model equality",
     "DESIGN.md C18")
